@@ -208,6 +208,9 @@ func (u *x04Up) serveRaw(c net.Conn, uc *x04UpConn) {
 			return
 		}
 		fmt.Fprintf(c, "ack%d;", total)
+		if bytes.Contains(buf[:n], []byte("HALFCLOSE;")) {
+			c.(*net.TCPConn).CloseWrite() // the upstream has said everything it had to say, it still listens
+		}
 	}
 }
 
@@ -1425,12 +1428,16 @@ func TestVerifX04(t *testing.T) {
 	par := verifx.EnvInt("X04_PAR", 96)
 	var wg sync.WaitGroup
 	sem := make(chan struct{}, par)
-	var played, voids, retried, selfOK, selfBad int64
+	var played, voids, retried, selfOK, selfBad, failed, skipped int64
 	var mu sync.Mutex
 	classes := map[string]int{}
 	run := func(h *x04Hist) {
 		defer wg.Done()
 		defer func() { <-sem }()
+		if atomic.LoadInt64(&failed) >= 40 {
+			atomic.AddInt64(&skipped, 1) // enough evidence; a broken tree would otherwise cost minutes of time-outs
+			return
+		}
 		var last x04Outcome
 		fails := 0
 		for attempt := 0; attempt < 6 && fails < 3; attempt++ {
@@ -1469,6 +1476,7 @@ func TestVerifX04(t *testing.T) {
 			return
 		}
 		if last.err != nil && fails >= 3 {
+			atomic.AddInt64(&failed, 1)
 			verifx.Fail(h, x04Features(h, last.err), "%s pxyproto=%v head=%s/%d pay=%s sni=%s: %v", h.C.key(), h.C.Pxy, h.S.Head, h.S.Fam, h.S.Pay, h.S.Sni, last.err)
 		} else if last.err != nil {
 			verifx.Emit(map[string]any{"kind": "void", "id": h.ID, "why": "failed " + strconv.Itoa(fails) + " time(s) only: " + last.err.Error()})
@@ -1499,7 +1507,7 @@ func TestVerifX04(t *testing.T) {
 	sort.Strings(keys)
 	os.Stdout = w.stdout
 	verifx.Summary(map[string]any{"histories": played, "voids": voids, "retries": retried, "selftest_rejected": selfOK,
-		"selftest_missed": selfBad, "classes": len(keys), "lanes": len(w.lanes), "dead": dead,
+		"selftest_missed": selfBad, "skipped": skipped, "classes": len(keys), "lanes": len(w.lanes), "dead": dead,
 		"startup_ms": tReady.Sub(tStart).Milliseconds(), "replay_ms": time.Since(tReady).Milliseconds(), "busy": fmt.Sprint(durs)})
 }
 
@@ -1671,6 +1679,58 @@ func TestVerifX04Probe(t *testing.T) {
 			}
 			r.close()
 		}
+	}
+	// note: a tunnel whose upstream finishes first, with and without pxyproto on the listener
+	{
+		res := map[bool]string{}
+		for _, pxy := range []bool{false, true} {
+			lane := w.take(x04Cfg{"tcp", pxy, "bare", false})
+			r, _ := w.dial(lane)
+			r.c.Write([]byte("HALFCLOSE;"))
+			r.upstream(2*time.Second, func(u x04UpConn) bool { return bytes.Contains(u.buf, []byte("HALFCLOSE;")) })
+			// the client reads the upstream's last words and its end of stream, then goes on talking
+			deadline := time.Now().Add(2 * time.Second)
+			for time.Now().Before(deadline) && !r.pump.ended() {
+				time.Sleep(5 * time.Millisecond)
+			}
+			r.c.Write([]byte("after;"))
+			r.c.CloseWrite()
+			u, _ := r.upstream(2*time.Second, func(u x04UpConn) bool { return u.eof })
+			res[pxy] = string(u.buf)
+			r.close()
+			w.pools[lane.key] <- lane
+		}
+		if strings.HasSuffix(res[false], "after;") && !strings.HasSuffix(res[true], "after;") {
+			notes["no-half-close-behind-pxyproto"] = fmt.Sprintf("upstream half-closes first, the client then sends \"after;\": proto=tcp delivers it (upstream has %q), proto=tcp;pxyproto=true tears the tunnel down (upstream has %q) - the PROXY layer's connection type has no CloseWrite", res[false], res[true])
+		}
+	}
+	// note: a ClientHello that does not fit tcpproxy's 4096-byte peek buffer on https+tcp+sni
+	{
+		lane := w.take(x04Cfg{"https+tcp+sni", false, "na", false})
+		var alpn []string
+		for i := 0; i < 70; i++ {
+			alpn = append(alpn, fmt.Sprintf("x04-padding-protocol-name-%02d-%s", i, strings.Repeat("p", 30)))
+		}
+		alpn = append(alpn, "http/1.1")
+		who := func(protos []string) string {
+			c, err := net.DialTimeout("tcp", lane.addr, 2*time.Second)
+			if err != nil {
+				return "connect: " + err.Error()
+			}
+			defer c.Close()
+			c.SetDeadline(time.Now().Add(3 * time.Second))
+			tc := tls.Client(c, &tls.Config{InsecureSkipVerify: true, ServerName: lane.host("tun"), NextProtos: protos})
+			if err := tc.Handshake(); err != nil {
+				return "handshake: " + err.Error()
+			}
+			return tc.ConnectionState().PeerCertificates[0].Subject.CommonName
+		}
+		small, big := who(nil), who(alpn)
+		if small == "x04-upstream" && big != "x04-upstream" {
+			notes["big-hello-not-tunnelled"] = fmt.Sprintf("proto=https+tcp+sni, host with a tcp route: a ClientHello of ~%d bytes is answered by the certificate %q instead of the tunnel's upstream (a normal one by %q): the SNI peek buffer is 4096 bytes", 70*62+300, big, small)
+		}
+		time.Sleep(50 * time.Millisecond)
+		w.pools[lane.key] <- lane
 	}
 	// note: family of the outgoing header when the declared source is IPv6
 	{
